@@ -10,6 +10,19 @@ MISSED_FIRST = {   # round 2: not caught by the check as it stood; what was stre
     'C13_d': 'oracle did not state the SQL expression clause: Expression / column default / index subject texts over a parenthesis alphabet added',
     'C16_c': 'API generator never produced a sticky note with empty text: added',
     'C17_d': 'scenario had the detached column only as a single-column side: composite sides with the detached column at any position added',
+    # round 3
+    'C01_e': 'docgen expressions had no backslash sequences: E\'\\t|\\n\' and \'\\folder\\name\' texts added (defaults and index subjects)',
+    'C01_f': 'docgen never typed a column with a bare name equal to an enum of another schema: added (the type must stay a string)',
+    'C03_f': 'schemas differing from `public` only by letter case were not generated: `Public` added to both generators',
+    'C05_f': 'column pools had no names differing only by letter case: `ID`/`Name`/`User_ID` added',
+    'C08_e': 'corpus had no document without any table: Ref / TableGroup / Enum-only documents added',
+    'C09_f': 'oracle accepted the deletion of an equal-looking TableGroup that was never added (groups compare by identity): must-reject clause and a twin group added',
+    'C11_e': 'the check CRASHED (translate.Abort escaped from the in-process grammar fingerprint): the refusal is now caught; the thread clause exhibits the failure',
+    'C12_e': 'documents with CR had been excluded altogether: CRLF files are now read through every file route and compared with the LF text',
+    'C12_f': 'no text contained an interior U+FEFF: added to the note pool',
+    'C13_e': 'site texts were all short: length classes 80/100/120/256/1000 added at every site',
+    'C14_f': 'comment pool had no braces (kept away because of D5): braces added for every element except references',
+    'C17_f': 'no scenario removed a table through an equal but distinct object: added',
 }
 
 def cell(t, n):
